@@ -18,10 +18,44 @@ def _position_module():
     return '#![allow(unused)]\n' + text
 
 
+def _docsym_module():
+    """scan_single_file / element_to_document_symbol / compute_element_propertiees of document_symbols.rs, cut verbatim
+    (the request handler, which needs the server state and lsp_server, is dropped together with its two `use` lines)."""
+    from rustcut import Source
+    p = os.path.join(common.repo_root(), 'dora-language-server/src/document_symbols.rs')
+    S = Source(p)
+    uses = [l for l in S.src.split('\n') if l.startswith('use ') and 'lsp_server' not in l and 'crate::server' not in l]
+    i = S.src.find('#[cfg(test)]')
+    end = i if i >= 0 else len(S.src)
+    names = [n for (n, pos) in S.fns_in(0, end, 0) if n != 'document_symbol_request']
+    if 'scan_single_file' not in names:
+        raise RuntimeError('scan_single_file not found in document_symbols.rs')
+    out = ['#![allow(unused)]'] + uses + ['']
+    for n in names:
+        out.append(S.cut_fn(n, 0, end, depth=0)['text'])
+        out.append('')
+    out.append('pub fn vx_scan(content: Arc<String>) -> Vec<DocumentSymbol> { scan_single_file(content) }')
+    return '\n'.join(out) + '\n', names
+
+
+def _link_pkgs():
+    """Sema::new looks for a `pkgs` directory next to an ancestor of the running executable: give the runner the working tree's."""
+    d = common.ensure_dir(os.path.join(common.BUILD, 'target-runners', 'release'))
+    link = os.path.join(d, 'pkgs')
+    target = os.path.join(common.repo_root(), 'pkgs')
+    if os.path.islink(link):
+        if os.readlink(link) == target:
+            return
+        os.unlink(link)
+    os.symlink(target, link)
+
+
 def _runner_spec():
-    return dict(name='c20', deps={'dora-parser': 'dora-parser'}, lock=True,
-                extra_files={'position.rs': _position_module()}, extra_deps=['lsp-types = "*"'],
-                budget_quick_ms=3000, budget_thorough_ms=90000)
+    docsym, _names = _docsym_module()
+    _link_pkgs()
+    return dict(name='c20', deps={'dora-parser': 'dora-parser', 'dora-frontend': 'dora-frontend'}, lock=True,
+                extra_files={'position.rs': _position_module(), 'docsym.rs': docsym}, extra_deps=['lsp-types = "*"'],
+                budget_quick_ms=4000, budget_thorough_ms=90000)
 
 
 def run(tier):
@@ -50,7 +84,9 @@ def run(tier):
         dict(lemma='theorem_clamp', statement='every (line, column) maps to a char boundary inside the document; line past the end -> document end; result inside its line'),
         dict(lemma='theorem_clamp_column', statement='column past the end of a line -> end of that line (incl. terminator)'),
     ]
-    not_decided = ['document/workspace symbol ranges (need the parser and the syntax tree)', 'server.rs entry points never panic',
+    not_decided = ['document symbol ranges are NOT under contract (they need the front end): scan_single_file / element_to_document_symbol / compute_element_propertiees are cut verbatim from '
+                   'document_symbols.rs and EXECUTED by the replay runner on generated program-like texts (ranges inside the document, selection inside range, children inside parents, no panic): sampled',
+                   'workspace symbols, goto-definition, server.rs entry points',
                    'range_to_span (unused; `end - start` underflows for reversed ranges)']
     return vprop.run_verus_property(PROP, tier, units, runner=runner, assumptions=assumptions, samples=samples,
                                     not_decided=not_decided, pre_undecided=pre_und)
@@ -64,6 +100,6 @@ def replay(rp):
         return 1
     spec = _runner_spec()
     runner = common.build_runner(spec['name'], spec['deps'], lock=True, extra_files=spec['extra_files'], extra_deps=spec['extra_deps'])
-    rc, out, err, _ = common.run_cmd([runner, 'replay', fi['text_hex']])
+    rc, out, err, _ = common.run_cmd([runner, 'replay-symbols' if fi.get('kind') == 'symbols' else 'replay', fi['text_hex']])
     print(out.strip())
     return 1 if rc != 0 else 0
